@@ -27,7 +27,7 @@ def main():
     only = sys.argv[sys.argv.index("--only") + 1] if "--only" in sys.argv else None
     rnd = int(sys.argv[sys.argv.index("--round") + 1]) if "--round" in sys.argv else 1
     label = {"A": "A", "B": "B"} if rnd == 1 else {"A": "CDEFGHIJKLMNOPQRSTUV"[2 * (rnd - 2)], "B": "CDEFGHIJKLMNOPQRSTUV"[2 * (rnd - 2) + 1]}
-    src = f"/tmp/seed/{prop}/_out"
+    src = os.path.join(os.environ.get("SEED_DIR", "/tmp/seed"), prop, "_out")
     scratch = tempfile.mkdtemp(prefix="hiveseed_", dir="/tmp")
     wt = os.path.join(scratch, "wt")
     try:
